@@ -82,6 +82,7 @@ type Thread struct {
 	fin     bool
 	daemon  bool
 	goid    int64
+	s       *Sched // the execution this thread belongs to
 }
 
 type grant struct {
@@ -114,13 +115,15 @@ type Point struct {
 func (p Point) nRunnerAlts() int { return p.NRunner }
 
 type Sched struct {
-	threads []*Thread
-	gmu     sync.Mutex
-	byGoid  map[int64]*Thread
-	running *Thread
-	yieldc  chan *Thread
-	tearing bool
-	wg      sync.WaitGroup
+	threads  []*Thread
+	gmu      sync.Mutex
+	byGoid   map[int64]*Thread
+	running  *Thread
+	yieldc   chan *Thread
+	tearing  bool
+	wg       sync.WaitGroup
+	dead     chan struct{} // closed when the execution is over (after teardown)
+	cleanups []func()
 
 	prefix   []int
 	prefixFP []uint64
@@ -318,13 +321,24 @@ type abortSentinel struct{}
 
 // point parks the calling managed thread at a scheduling point until granted.
 func (t *Thread) point(o *op) grant {
-	s := cs
-	if s == nil || s.tearing {
+	// A thread only ever talks to its own execution's scheduler: a straggler of an
+	// execution whose teardown timed out must not yield into the next execution.
+	s := t.s
+	if cs != s || s.tearing {
 		runtime.Goexit()
 	}
 	t.pending = o
-	s.yieldc <- t
-	g := <-t.wake
+	select {
+	case s.yieldc <- t:
+	case <-s.dead:
+		runtime.Goexit()
+	}
+	var g grant
+	select {
+	case g = <-t.wake:
+	case <-s.dead:
+		runtime.Goexit()
+	}
 	if g.abort {
 		runtime.Goexit()
 	}
@@ -347,7 +361,7 @@ func Go(site string, f func()) {
 }
 
 func (s *Sched) spawn(site string, f func(), isMain bool) *Thread {
-	t := &Thread{id: len(s.threads), site: site, wake: make(chan grant)}
+	t := &Thread{id: len(s.threads), site: site, wake: make(chan grant), s: s}
 	if p := s.running; p != nil && !isMain {
 		p.nspawn++
 		t.cid = mix(p.cid, uint64(p.nspawn), hs(site))
@@ -372,10 +386,18 @@ func (s *Sched) spawn(site string, f func(), isMain bool) *Thread {
 			s.gmu.Unlock()
 			t.fin = true
 			if !s.tearing {
-				s.yieldc <- t
+				select {
+				case s.yieldc <- t:
+				case <-s.dead:
+				}
 			}
 		}()
-		g := <-t.wake
+		var g grant
+		select {
+		case g = <-t.wake:
+		case <-s.dead:
+			return
+		}
 		if g.abort {
 			return
 		}
@@ -521,7 +543,7 @@ func RunOnce(prefix []int, body func(), seen map[uint64]int) *Sched {
 
 // RunOnceCfg is RunOnce with replay fingerprints and a foreign-event grace period.
 func RunOnceCfg(prefix []int, prefixFP []uint64, body func(), seen map[uint64]int, grace time.Duration) *Sched {
-	s := &Sched{byGoid: map[int64]*Thread{}, yieldc: make(chan *Thread), prefix: prefix, prefixFP: prefixFP, ForeignGrace: grace,
+	s := &Sched{byGoid: map[int64]*Thread{}, yieldc: make(chan *Thread), dead: make(chan struct{}), prefix: prefix, prefixFP: prefixFP, ForeignGrace: grace,
 		StepLimit: 20000, watch: map[uintptr][]func(interface{}){}, chanH: map[uintptr]uint64{}, objH: map[uintptr]uint64{}, Seen: seen}
 	gl.Lock()
 	epoch++
@@ -690,7 +712,27 @@ func RunOnceCfg(prefix []int, prefixFP []uint64, body func(), seen map[uint64]in
 	gl.Lock()
 	cs = nil
 	gl.Unlock()
+	close(s.dead)
+	// harness clean-up of resources the scheduler does not own (e.g. an in-process
+	// cluster's keepalive goroutines), outside the execution
+	for i := len(s.cleanups) - 1; i >= 0; i-- {
+		s.cleanups[i]()
+	}
 	return s
+}
+
+// Cleanup registers f to run after the current execution has been torn down (no
+// scheduler is active then: vsched primitives pass through). Without an execution f
+// is not run and false is returned.
+func Cleanup(f func()) bool {
+	s := cs
+	if s == nil {
+		return false
+	}
+	s.gmu.Lock()
+	s.cleanups = append(s.cleanups, f)
+	s.gmu.Unlock()
+	return true
 }
 
 func (s *Sched) Trace() []Point { return s.trace }
